@@ -450,6 +450,9 @@ static int jdf_sanity_check_predicates_unbound(void)
                 rc = -1;
             i++;
         }
+        /* the priority expression is evaluated with the same locals as the predicate */
+        if( (NULL != f->priority) && (jdf_sanity_check_expr_bound(f->priority, "Priority", f) < 0) )
+            rc = -1;
     }
     return rc;
 }
